@@ -9,8 +9,12 @@
 //                                                                              clusterVarId=id, bounds, margin, nodes)
 //         nv                              vs.size()
 //         ncont (cv px pX py pY kmem mem*kmem kch (chVar mx mX my mY)*kch)*ncont     ClusterContainmentConstraints
-//         prints per dimension:  "N OK m (l r gap)*" | "N ERR idx|other"   then per containment spec "C m (l r gap)*"
-// layout: n (x X y Y)*n | nexg groups | ncl (parent px pX py pY mx mX my mY knodes node*)*ncl |
+//         nfix (cv ri)*nfix               fixed-rectangle clusters: RectangularCluster(ri) with clusterVarId = cv
+//         prints per dimension:  "N OK m (l r gap)*" | "N ERR idx|other"   then per containment spec "C OK m (l r gap)*"
+//                                then per fixed-rectangle spec "F OK m (l r gap [EQ])*": the vpsc constraints that the idle
+//                                cola::SeparationConstraints pushed by generateFixedRectangleConstraints generate in that dimension
+// layout: n (x X y Y)*n | nexg groups | ncl (parent rect px pX py pY mx mX my mY knodes node*)*ncl |
+//         (rect >= 0: the cluster is RectangularCluster(rect), its boundary is that rectangle; rect = -1: RectangularCluster())
 //         ncc (1 d l r g e | 2 d la ra g e | 3 d pos fixed k (s o)*k | 5 d sep k (a b)*k | 6 d sep e k (a b)*k)*ncc |
 //         ne (u v)*ne ideal mode
 //         mode 0 = makeFeasible()+run() with setAvoidNodeOverlaps(true, groups) (and the cluster hierarchy when ncl > 0)
@@ -158,6 +162,12 @@ static void genMode(Toks &tk)
         }
         conts.push_back(c);
     }
+    // fixed-rectangle specs (trailing section; absent in old case lines)
+    vector<std::pair<unsigned, unsigned> > fixes;
+    if (tk.p < tk.t.size()) {
+        int nfix = tk.next();
+        for (int i = 0; i < nfix; i++) { unsigned cv = tk.next(), ri = tk.next(); fixes.push_back(std::make_pair(cv, ri)); }
+    }
     for (int dim = 0; dim < 2; dim++) {
         vpsc::Variables vs; vpsc::Constraints cs;
         for (int i = 0; i < nv; i++) vs.push_back(new vpsc::Variable(i, 0));
@@ -183,6 +193,27 @@ static void genMode(Toks &tk)
             } catch (...) { o2.str(""); o2 << "C ERR other"; }
             for (size_t i = 0; i < c2.size(); i++) delete c2[i];
             for (size_t i = 0; i < v2.size(); i++) delete v2[i];
+            std::cout << o2.str() << "\n";
+        }
+        // fixed-rectangle clusters: the idle constraints generateFixedRectangleConstraints pushes, expanded in this dimension
+        for (size_t k = 0; k < fixes.size(); k++) {
+            std::ostringstream o2;
+            vpsc::Variables v2; vpsc::Constraints c2;
+            for (int i = 0; i < 64; i++) v2.push_back(new vpsc::Variable(i, 0));
+            CompoundConstraints idle;
+            try {
+                if (fixes[k].second >= rs.size()) throw std::string("rect index");
+                RectangularCluster fc(fixes[k].second);
+                fc.clusterVarId = fixes[k].first;
+                vpsc::Variables dummy[2];
+                fc.generateFixedRectangleConstraints(idle, rs, dummy);
+                for (size_t i = 0; i < idle.size(); i++) idle[i]->generateVariables((vpsc::Dim) dim, v2);
+                for (size_t i = 0; i < idle.size(); i++) idle[i]->generateSeparationConstraints((vpsc::Dim) dim, v2, c2, rs);
+                o2 << "F OK"; if (v2.size() != 64) o2 << " EXTRAVARS"; dumpCs(o2, c2);
+            } catch (...) { o2.str(""); o2 << "F ERR other"; }
+            for (size_t i = 0; i < c2.size(); i++) delete c2[i];
+            for (size_t i = 0; i < v2.size(); i++) delete v2[i];
+            for (size_t i = 0; i < idle.size(); i++) delete idle[i];
             std::cout << o2.str() << "\n";
         }
         for (size_t i = 0; i < vs.size(); i++) delete vs[i];
@@ -252,8 +283,10 @@ static void readScene(Toks &tk, Scene &sc)
     if (ncl > 0) root = new RootCluster();
     for (int i = 0; i < ncl; i++) {
         int parent = tk.next();
+        int rect = tk.next();
+        if (rect >= (int) rs.size()) throw std::string("cluster rectangle index out of range");
         double px = tk.q(), pX = tk.q(), py = tk.q(), pY = tk.q(), mx = tk.q(), mX = tk.q(), my = tk.q(), mY = tk.q();
-        RectangularCluster *c = new RectangularCluster();
+        RectangularCluster *c = rect >= 0 ? new RectangularCluster((unsigned) rect) : new RectangularCluster();
         c->setPadding(Box(px, pX, py, pY)); c->setMargin(Box(mx, mX, my, mY));
         int k = tk.next(); for (int j = 0; j < k; j++) c->addChildNode(tk.next());
         if (parent < 0) root->addChildCluster(c); else cl[parent]->addChildCluster(c);
@@ -272,6 +305,8 @@ static void readScene(Toks &tk, Scene &sc)
 //                          A<j>.<m> m-th variable of user constraint j, ?<i> nobody we know
 //   U <m> (ltag rtag gap eq)*   the user constraints' separation constraints
 //   K <m> (ltag rtag gap)*      the separation constraints of all ClusterContainmentConstraints (stored ids -> run-time variables)
+//   F <m> (ltag rtag gap eq)*   the separation constraints of the idle cola::SeparationConstraints among the extra constraints
+//                               (only generateFixedRectangleConstraints creates such: fixed-rectangle clusters)
 static void varsMode(Toks &tk)
 {
     Scene sc; readScene(tk, sc);
@@ -335,14 +370,27 @@ static void varsMode(Toks &tk)
                 }
             }
             out << "K " << nk << ks.str() << "\n";
+            std::ostringstream fs; size_t nf = 0;
+            for (size_t i = 0; i < alg.extraConstraints.size(); i++) {
+                SeparationConstraint *sc = dynamic_cast<SeparationConstraint *>(alg.extraConstraints[i]);
+                if (!sc) continue;
+                vpsc::Constraints kc;
+                sc->generateSeparationConstraints((vpsc::Dim) dim, vs, kc, alg.boundingBoxes);
+                for (size_t j = 0; j < kc.size(); j++) {
+                    snprintf(b, sizeof b, " %.17g %d", kc[j]->gap, (int) kc[j]->equality);
+                    fs << " " << (tag.count(kc[j]->left) ? tag[kc[j]->left] : "?") << " " << (tag.count(kc[j]->right) ? tag[kc[j]->right] : "?") << b;
+                    nf++; delete kc[j];
+                }
+            }
+            out << "F " << nf << fs.str() << "\n";
             for (size_t i = 0; i < cs.size(); i++) delete cs[i];
             for (size_t i = 0; i < vs.size(); i++) delete vs[i];
         }
         for (size_t i = 0; i < alg.extraConstraints.size(); i++) delete alg.extraConstraints[i];
         alg.extraConstraints.clear();
-    } catch (InvalidVariableIndexException &e) { out.str(""); for (int k = 0; k < 6; k++) out << "ERR idx\n";
-    } catch (vpsc::CriticalFailure &e) { out.str(""); for (int k = 0; k < 6; k++) out << "ERR assert\n";
-    } catch (...) { out.str(""); for (int k = 0; k < 6; k++) out << "ERR other\n"; }
+    } catch (InvalidVariableIndexException &e) { out.str(""); for (int k = 0; k < 8; k++) out << "ERR idx\n";
+    } catch (vpsc::CriticalFailure &e) { out.str(""); for (int k = 0; k < 8; k++) out << "ERR assert\n";
+    } catch (...) { out.str(""); for (int k = 0; k < 8; k++) out << "ERR other\n"; }
     std::cout << out.str();
     for (size_t i = 0; i < sc.ccs.size(); i++) delete sc.ccs[i];
     delete sc.root;
